@@ -367,6 +367,109 @@ def check_ctor(case):
     return _pick(fails)
 
 
+# --------------------------------------------------------------------------------------------------
+# arbitrary byte strings (Atheris campaign inputs replay through here)
+
+def _value_in_domain(t, v, where):
+    """True iff the reference value lies in the domain of this property's oracle (see 'NOT asserted' in the docstring)"""
+    k = t[0]
+    if k == 'prim':
+        p = t[1]
+        if p in ('string', 'bytes'):
+            b = v.encode('utf-8') if isinstance(v, str) else bytes(v)
+            return b[:4] not in AVOID or where in UNTOUCHABLE
+        return True
+    if k == 'vector':
+        return all(_value_in_domain(t[1], e, where) for e in v)
+    if k in ('bare', 'boxed'):
+        if t == ('boxed', 'Bool'):
+            return True
+        name = v['@type'] if k == 'boxed' else t[1]
+        if name not in SUPPORTED_SET and k == 'boxed':
+            return False
+        c = SCH.ctor(name)
+        return all(_value_in_domain(a.type, v[a.name], (name, a.name)) for a in c.args if a.name in v)
+    return False
+
+
+def _top_in_domain(name, v):
+    c = SCH.ctor(name)
+    return all(_value_in_domain(a.type, v[a.name], (name, a.name)) for a in c.args if a.name in v)
+
+
+def check_raw(case):
+    """reference decoder reads the whole input as one supported, in-domain, canonically encoded object  =>  the library
+    returns the same value and consumes everything; for every input the parser stays within the operation budget."""
+    from harness.opcount import counted
+    from harness.core import note
+    g, schemas = _schemas()
+    data = bytes.fromhex(case['raw'])
+    ref = None
+    try:
+        v, end = SCH.decode(data)
+        name = v['@type']
+        if end == len(data) and name in SUPPORTED_SET and SCH.encode(name, v) == data \
+                and _top_in_domain(name, v):
+            ref = v
+    except (reftl.TlRefError, UnicodeDecodeError, KeyError, ValueError, OverflowError, RecursionError):
+        ref = None
+    ok, res, _ = counted(lambda: schemas.deserialize(data), 150 * len(data) + 3000, 'tl-deserialize')
+    if ref is None:
+        return None
+    note('raw:reference-accepts')
+    name = ref['@type']
+    if not ok:
+        return Fail(f'deserialize/raises/{exc_sig(res)}/raw', f'{name}: {res!r} on {data[:60].hex()}')
+    val, used = res
+    d = cmp_obj(name, ref, val, True, name)
+    if d:
+        return Fail(f'deserialize/{d[0]}/{d[1]}/raw', f'at {d[2]}: {d[3]}; input {data[:80].hex()} ({len(data)} bytes)')
+    if used != len(data):
+        return Fail('deserialize/consumed-length/raw', f'{name}: consumed {used} of {len(data)}')
+    return None
+
+
+def _campaign_corpus():
+    out = []
+    for i, name in enumerate(SUPPORTED):
+        if i % 7 == 0 or any(a.type[0] == 'vector' or a.cond is not None for a in SCH.ctor(name).args):
+            tree = gen_obj(HashChooser(f'corpus/{name}'), name, 2, False, bit31=False)
+            ref, _ = mat_obj(name, tree, new_info())
+            out.append(SCH.encode(name, ref))
+    return out[:400]
+
+
+def check_campaign(case):
+    from harness import fuzz
+    from harness.core import note
+    res = fuzz.run_campaign('C14', 'raw-bytes', case['runs'], case['seed'], _campaign_corpus(), max_len=case.get('max_len', 400),
+                            use_empty_corpus=case.get('empty_corpus', False))
+    if 'skipped' in res:
+        note('atheris:skipped (' + res['skipped'][:60] + ')')
+        return None
+    note('atheris:executions', res.get('execs', 0))
+    note('atheris:coverage-edges(last campaign)', res.get('cov', 0))
+    if res.get('found'):
+        f = res['found']
+        return Fail(f['signature'], f['detail'], replay=('raw-bytes', f['case']))
+    if res.get('target_error'):
+        raise HarnessError('fuzz target failed: ' + res['target_error'])
+    return None
+
+
+def enum_campaigns(tier):
+    from harness.core import SEED
+    for k in range(8):
+        yield {'runs': 60000, 'seed': SEED * 100 + k + 1, 'empty_corpus': k == 7, 'max_len': 400 if k % 2 == 0 else 120}
+
+
+def enum_raw(tier):
+    for b in _campaign_corpus()[:120]:
+        yield {'raw': b.hex()}
+        yield {'raw': b[:-1].hex()}
+        yield {'raw': (b + b'\x00\x00\x00\x00').hex()}
+
+
 def check_blockid(case):
     from pytoniq_core.tl.block import BlockId, BlockIdExt
     wc, shard, seqno = case['wc'], case['shard'], case['seqno']
@@ -750,4 +853,9 @@ SUBCHECKS = [
     Sub('string-framing', check_ctor, strategy=strat_strings, classify=classify, nontrivial=nontrivial,
         n=(4000, 150000), shards=(8, 32)),
     Sub('block-id-helpers', check_blockid, strategy=strat_blockid, classify=classify_bid, n=(1000, 50000), shards=(4, 8)),
+    Sub('raw-bytes', check_raw, enum=enum_raw, shards=(4, 4), note='plain byte strings (reference encodings, truncated and extended by '
+        'one word); inputs found by the Atheris campaign replay through this sub-check'),
+    Sub('atheris-campaign', check_campaign, enum=enum_campaigns, shards=(8, 8), tiers=('thorough',), case_cpu_s=3600,
+        note='8 coverage-guided libFuzzer campaigns x 60000 executions over TlSchemas.deserialize (7 seeded with reference '
+             'encodings of up to 400 constructors, 1 from an empty corpus); oracle = raw-bytes inside the target'),
 ]
